@@ -369,7 +369,7 @@ func normPath(p []string) []string {
 }
 
 func runC17(c *wk.Ctx) {
-	c.Meta("rule", "generated nested schemas (map-based objects, lists, maps with string/int keys, one-of, references and scopes, scalars with bounds, patterns, enums) with a valid input; every leaf / list / map / object / required property on the way is corrupted ONE AT A TIME with each applicable corruption (wrong type, below min, above max, pattern miss, not in enum, undeclared key, missing required property, violated required_if / required_if_not / conflicts rule) - the injector knows the path by construction. The corrupted input must be must-reject for the reference interpreter (else the case is skipped). Oracle: errors.As(err, *ConstraintError) and its Path, with one-of marker segments removed and [..]/{..} decoration stripped, equals the injector's path; for an undeclared key the path of the containing object and the key named in the message. Both Unserialize (raw) and Validate (native-form trees). Map entries are also addressed by a key written differently from its canonical form (007 for 7) and a key of the wrong type is injected: the path names the key as the input writes it. Struct-mapped values: see assumptions. distinct = hash(schema, path, corruption); non-trivial = path length >= 1")
+	c.Meta("rule", "generated nested schemas (map-based objects, lists, maps with string/int keys, one-of, references and scopes, scalars with bounds, patterns, enums) with a valid input; every leaf / list / map / object / required property on the way is corrupted ONE AT A TIME with each applicable corruption (wrong type, below min, above max, pattern miss, not in enum, undeclared key, missing required property, violated required_if / required_if_not / conflicts rule) - the injector knows the path by construction. The corrupted input must be must-reject for the reference interpreter (else the case is skipped). Oracle: errors.As(err, *ConstraintError) and its Path, with one-of marker segments removed and [..]/{..} decoration stripped, equals the injector's path; for an undeclared key the path of the containing object and the key named in the message. Both Unserialize (raw) and Validate (native-form trees). Map entries are also addressed by a key written differently from its canonical form (007 for 7) and a key of the wrong type is injected: the path names the key as the input writes it. Struct-mapped values: see assumptions. distinct = hash(schema, path, corruption); non-trivial = path length >= 1 Every judged rejection is evaluated a second time on the same value and must name the same element. Directed: a recursive Node{children, byName} with the offending leaf 3..120 levels down (paths of up to 240 segments).")
 	c.Meta("assumptions", []string{"struct-mapped objects: one case in five unserializes a valid input of a struct-mapped schema, breaks one scalar leaf of the Go value (through structs, pointers, slices, maps, interfaces) and demands that Validate names it by property IDs; Unserialize-side injection stays on map-based schemas",
 		"a presence-rule violation is injected only where exactly one property's rule is violated afterwards (otherwise the reported property is not unique)"})
 	c.Floor("injections", 3000)
